@@ -65,7 +65,7 @@ def extra(ctx, lines):
 CFG = dict(
     imports=["From Verif.C23 Require Import Model Spec.", "Open Scope N_scope."],
     checker="check_case",
-    n=dict(quick=200, thorough=8000),
+    n=dict(quick=150, thorough=8000),
     shard=25,
     classify=classify,
     extra=extra,
